@@ -329,6 +329,12 @@ func execFl(o *Out, id, line string) {
 		res = fmt.Sprintf("%s:eof:%d", hx(out), len(in)-unread)
 	}
 	o.Count("dsnet-" + cls)
+	if len(in) > 2 { // the 65k exhaustive short strings add nothing here
+		memOracle(o, line, "flate", 4<<20, 1024, len(in), func() int {
+			zr, _ := dflate.NewReader(bytes.NewReader(in), nil)
+			return drain(zr)
+		})
+	}
 	key := ""
 	if len(out) > 0 || err == nil {
 		key = kv["in"]
